@@ -12,6 +12,11 @@ MAX_PROBES_PER_TASK = 6
 def run_symx_check(mod, tier, seed, only=None, procs=None, extra_cov=None, pre_verdicts=None):
     t0 = time.time()
     cid = mod.ID
+    rdir = os.path.join(runner.VERIF, "replays", cid)
+    if os.path.isdir(rdir) and not only:
+        for f in os.listdir(rdir):
+            if f.startswith(tier + "_"):
+                os.remove(os.path.join(rdir, f))
     tasks = mod.tasks(tier, seed)
     if only:
         tasks = [t for t in tasks if only in t["name"]]
@@ -24,6 +29,7 @@ def run_symx_check(mod, tier, seed, only=None, procs=None, extra_cov=None, pre_v
     nrep = 0
     replayed, reproduced, probes, probe_hits = 0, 0, 0, 0
     sample_violations = []
+    known_replays = {}
     for r in results:
         task = tindex[r["task"]]
         if r["error"]:
@@ -57,6 +63,30 @@ def run_symx_check(mod, tier, seed, only=None, procs=None, extra_cov=None, pre_v
                 V.harness.append("task %s: solver counterexample did not reproduce natively (engine/oracle mismatch): %s"
                                  % (r["task"], str(verdict.get("detail"))[:300]))
             else:
+                V.harness.append("task %s: replay failed: %s" % (r["task"], str(verdict)[:300]))
+        # listed known findings: a witness inside the finding's region is replayed; it is reported as KNOWN-FINDING only
+        # if it reproduces natively AND shows the characterised wrong behaviour
+        for hit in r.get("known_hits", []):
+            fid = hit["id"]
+            if known_replays.get(fid, 0) >= 2 or fid not in {k["id"] for k in known}:
+                continue
+            known_replays[fid] = known_replays.get(fid, 0) + 1
+            try:
+                spec = mod.build_spec(task, {"witness": hit["witness"], "info": {}})
+            except Exception as e:  # noqa
+                V.harness.append("task %s: cannot build spec for known-finding witness: %s" % (r["task"], e))
+                continue
+            nrep += 1
+            ok, verdict, path = runner.replay_native(cid, spec, "%s_known%d" % (tier, nrep))
+            if ok is True:
+                got = mod.classify_known(spec, verdict, known)
+                if got == fid:
+                    what = next(k["what"] for k in known if k["id"] == fid)
+                    n, _ = V.known.get(fid, (0, what))
+                    V.known[fid] = (n + 1, what)
+                else:
+                    V.violations.append((path, "[%s] %s" % (r["task"], verdict.get("detail", ""))))
+            elif ok is None:
                 V.harness.append("task %s: replay failed: %s" % (r["task"], str(verdict)[:300]))
         # concolic probe of inconclusive paths: a model of the path condition is run natively against the oracle
         wits = []
